@@ -1305,8 +1305,27 @@ class SyncInterpreter(BaseInterpreter[TContext, TEvent]):
             data=child.context,
             src=invoke_id,
         )
+        # 🔒 Report only while this child is still the one registered for the
+        #    invoke, deciding and enqueueing in one step under the queue lock.
+        #    Leaving the invoking state unregisters the child under the same
+        #    lock (`_cancel_state_tasks`); without this a runner thread that
+        #    had already seen its child finish delivered `done.invoke` after
+        #    the state was left and re-entered, completing the NEW activation
+        #    with the old child's result.
+        with self._queue_lock:
+            if (
+                self._actors.get(child.id) is not child
+                or self.status != "running"
+            ):
+                logger.debug(
+                    "🚫 Child '%s' is no longer current; no onDone.", child.id
+                )
+                return
+            if self._is_processing:
+                self._chained_sends += 1
+            self._event_queue.append(done_event)
         logger.info("🏁 Child actor '%s' completed; firing onDone.", child.id)
-        self.send(done_event)
+        self._process_event_queue()
 
     def _cancel_state_tasks(self, state: StateNode) -> None:
         """Cancel all pending **after** timers that belong to a state.
@@ -1351,6 +1370,15 @@ class SyncInterpreter(BaseInterpreter[TContext, TEvent]):
                     cancel_event.set()  # signal cancellation
                 self._after_threads.pop(key, None)
 
+            # 🤖 Unregister the child machines this state invoked in the same
+            #    step, so a runner thread can tell (under this lock) that its
+            #    child's completion is no longer wanted. They are stopped below,
+            #    outside the lock.
+            leaving = [
+                self._actors.pop(f"{self.id}:{invocation.id}", None)
+                for invocation in state.invoke
+            ]
+
             if (state.after or state.invoke) and self._event_queue:
                 kept = [
                     e
@@ -1367,8 +1395,7 @@ class SyncInterpreter(BaseInterpreter[TContext, TEvent]):
         #    own timers and runner thread) after the invoking state was left,
         #    until it happened to finish or the parent was stopped. The actor
         #    id is the one `_invoke_service` hands to `_spawn_actor`.
-        for invocation in state.invoke:
-            child = self._actors.pop(f"{self.id}:{invocation.id}", None)
+        for child in leaving:
             if child is not None:
                 child.stop()
 
